@@ -68,7 +68,7 @@ type Pod struct {
 	Del, Oos         bool
 }
 
-type Fault struct{ Kind, A, B int64 } // 1 create(t,i) 2 delete(t,i) 3 patch(t,i) 4 status(n) 5 pg-create(errkind) 6 pg-update(errkind); 11-14 = 1-4 for the give-up execution of handleJobError
+type Fault struct{ Kind, A, B int64 } // 1 create(t,i) 2 delete(t,i) 3 patch(t,i) 4 status(n) 5 pg-create(errkind) 6 pg-update(errkind); 11-14 = 1-4 for the give-up execution of handleJobError; 21-25 = delete(t,i) refused with error class Timeout / ServerTimeout / TooManyRequests / Conflict / InternalError
 
 type Req struct {
 	Event    int64
@@ -698,6 +698,9 @@ func (e *Env) Step(ns string, o Op) Obs {
 				e.FailPgCreate = int(f.A)
 			case 6:
 				e.FailPgUpdate = int(f.A)
+			case 21, 22, 23, 24, 25:
+				e.FailDelete[PodName(f.A, f.B)] = true
+				e.DeleteClass[PodName(f.A, f.B)] = int(f.Kind - 20)
 			case 11:
 				e.GiveCreate[PodName(f.A, f.B)] = true
 			case 12:
